@@ -31,6 +31,7 @@ func init() {
 			{Name: "crlf", TShards: 2, Run: c06CRLF},
 			{Name: "files", TShards: 4, Run: c06Files},
 			{Name: "huge", QShards: 6, TShards: 16, Run: c06Huge},
+			{Name: "parallel", Race: true, TShards: 2, Run: c06Parallel},
 			{Name: "prefixes", Run: func(c *Ctx) {
 				for i, f := range c06Formats {
 					prefixUnit(f, true, int64(i)*1000)(c)
@@ -658,6 +659,75 @@ func c06Huge(c *Ctx) {
 				})
 				idx++
 			}
+		}
+	}
+}
+
+// c06Parallel: the delivery configurations of one input (bytes.Reader, chunked
+// reader, File plain, File gz) decoded at the same time in eight goroutines,
+// each compared with the trace computed beforehand (-race build: any race
+// report is a violation).
+func c06Parallel(c *Ctx) {
+	dir, err := os.MkdirTemp("", "c06-par-")
+	if err != nil {
+		c.Info("parallel_skipped", err.Error())
+		return
+	}
+	defer os.RemoveAll(dir)
+	idx := int64(0)
+	for _, f := range c06Formats {
+		cd := codecByName(f)
+		for i := 0; i < c.N(2, 12); i++ {
+			c.Case(idx, func(k *K) {
+				r := k.Rand()
+				ff := f
+				if ff == "samh" {
+					ff = "sam"
+				}
+				x := wellFormedAtLeast(r, ff, 20000)
+				if i%2 == 1 {
+					x = append(x, nearValid(r, ff)...) // ends in something malformed: the error position must agree too
+				}
+				k.Input("format", f)
+				k.Input("input", func() string { return describeText(x) })
+				ref, _ := collect(cd.seq(bytes.NewReader(x)), len(x)+8)
+				plain := filepath.Join(dir, fmt.Sprintf("p%d%s", k.Idx, cd.ext))
+				if os.WriteFile(plain, x, 0o644) != nil || os.WriteFile(plain+".gz", gzipBytes(x, 6), 0o644) != nil {
+					k.Count("file_write_failed", 1)
+					return
+				}
+				defer os.Remove(plain)
+				defer os.Remove(plain + ".gz")
+				runParallel(k, 8, func(g int, r *rand.Rand) string {
+					for it := 0; it < 4; it++ {
+						var got []item
+						var over bool
+						what := ""
+						switch (g + it) % 4 {
+						case 0:
+							what = "Reader on bytes"
+							got, over = collect(cd.seq(bytes.NewReader(x)), len(x)+8)
+						case 1:
+							what = "Reader on a chunked reader"
+							got, over = collect(cd.seq(&schedReader{data: x, sizes: []int{1 + r.IntN(700), 1 + r.IntN(5000)}, eofWith: it%2 == 0}), len(x)+8)
+						case 2:
+							what = "File (plain)"
+							got, over = collect(cd.file(plain), len(x)+8)
+						default:
+							what = "File (gz)"
+							got, over = collect(cd.file(plain+".gz"), len(x)+8)
+						}
+						if over || !sameTrace(got, ref) {
+							return fmt.Sprintf("%s: %s, decoded while seven other decoders ran, differs from the trace computed beforehand:\n got  %s\n want %s", f, what, traceString(got), traceString(ref))
+						}
+					}
+					return ""
+				})
+				k.Count("parallel_decodes", 8*4)
+				k.Evals(8*4 - 1)
+				k.Nontrivial([]byte(f), x[:64], []byte("parallel"))
+			})
+			idx++
 		}
 	}
 }
